@@ -230,6 +230,7 @@ func (g *Gen) Step() bool {
 			choice{g.wt("burst"), func() { g.opBurst(conns) }},
 			choice{g.wt("badreq"), func() { g.opBadReq(conns) }},
 			choice{g.wt("trigburst"), func() { g.opTrigBurst(conns) }},
+			choice{g.wt("hostilereq"), func() { g.opHostileReq(conns) }},
 		)
 	}
 	if len(pend) > 0 {
@@ -259,6 +260,9 @@ func (g *Gen) Step() bool {
 		choice{g.wt("tokreset"), g.opTokReset},
 		choice{g.wt("httpget"), func() { g.opHTTP("GET") }},
 		choice{g.wt("httppost"), func() { g.opHTTP("POST") }},
+		choice{g.wt("hostilehttp"), g.opHostileHTTP},
+		choice{g.wt("inject"), func() { g.opInject(conns, pend) }},
+		choice{g.wt("badanswer") * boolInt(len(pend) > 0), func() { g.opBadAnswer(pend) }},
 		choice{g.wt("sleep") * boolInt(g.w.Cfg.UnsubDelayMs > 0), func() {
 			g.w.Exec(Op{K: "sleep", N: g.w.Cfg.UnsubDelayMs/2 + rapid.IntRange(0, g.w.Cfg.UnsubDelayMs).Draw(g.t, "sleepms")})
 		}},
@@ -739,4 +743,81 @@ func (g *Gen) opTrigBurst(conns []*Client) {
 			g.w.Exec(Op{K: "custom", S: name, M: "custom"})
 		}
 	}
+}
+
+var hostileTokens = []string{"a", "b", "t", "*", ">", "?", " ", "é", "", "a*", "*a", "a>", "\t", "\r\n", "\x00", "\x7f", "~", "!", "{cid}", "a b", "\xff", "%2E"}
+
+// opHostileReq sends a request whose method string is drawn from a grammar of hostile tokens.
+func (g *Gen) opHostileReq(conns []*Client) {
+	c := g.conn(conns)
+	action := g.sample("haction", []string{"get", "subscribe", "unsubscribe", "call", "auth", "new", "version", "foo", "", "Get"})
+	n := rapid.IntRange(0, 4).Draw(g.t, "hn")
+	toks := make([]string, n)
+	for i := range toks {
+		if rapid.IntRange(0, 2).Draw(g.t, "plain") > 0 {
+			toks[i] = g.sample("ptok", []string{"t", "a", "b", "set"})
+		} else {
+			toks[i] = g.sample("htok", hostileTokens)
+		}
+	}
+	m := action
+	if n > 0 || rapid.Bool().Draw(g.t, "dot") {
+		m += "." + strings.Join(toks, ".")
+	}
+	if rapid.IntRange(0, 4).Draw(g.t, "hq") == 0 {
+		m += "?" + g.sample("hquery", []string{"", "a=1", "x.y=*", " ", ">", "\n"})
+	}
+	g.w.Exec(Op{K: "creq", C: c.Idx, ID: g.nextID(c), M: m})
+}
+
+// opHostileHTTP issues an HTTP request with a path drawn from hostile segments.
+func (g *Gen) opHostileHTTP() {
+	api := g.w.Cfg.APIPath
+	if api == "" {
+		api = "/api/"
+	}
+	if !strings.HasSuffix(api, "/") {
+		api += "/"
+	}
+	n := rapid.IntRange(0, 4).Draw(g.t, "hsn")
+	segs := make([]string, n)
+	for i := range segs {
+		if rapid.IntRange(0, 2).Draw(g.t, "plain") > 0 {
+			segs[i] = g.sample("pseg", []string{"t", "a", "b", "set"})
+		} else {
+			segs[i] = g.sample("hseg", []string{"%2E", "%2e", "a%2Eb", "%20", "%2A", "%3E", "%3F", "*", ">", "", "%zz", "%", "é", "%C3%A9", "a.b", ".", "%0A", "%0D%0A", "~", "%2F", "+", "%00", "%7F", "a%20b", "{cid}"})
+		}
+	}
+	prefix := api
+	if rapid.IntRange(0, 9).Draw(g.t, "badprefix") == 0 {
+		prefix = g.sample("prefix", []string{"/", "/ap/", "/api", "/api//"})
+	}
+	url := prefix + strings.Join(segs, "/")
+	if rapid.IntRange(0, 3).Draw(g.t, "hq") == 0 {
+		url += "?" + g.sample("hquery", []string{"a=1", "x.y=*", "%20", "a=>"})
+	}
+	method := g.sample("hmethod", []string{"GET", "GET", "POST", "POST", "HEAD", "PUT", "DELETE"})
+	g.http++
+	g.w.Exec(Op{K: "http", C: g.http, M: method, S: url})
+}
+
+// opBadAnswer answers a get/call/auth request with service-supplied invalid resource ids.
+func (g *Gen) opBadAnswer(pend []PendingView) {
+	pv := pend[rapid.IntRange(0, len(pend)-1).Draw(g.t, "pending")]
+	op := Op{K: "ans", S: pv.P.Subject, Q: pv.P.Query, A: actorEnc(pv.Actor), N: pv.Ord, O: "raw"}
+	bad := g.sample("badrid", []string{"t.*", "t.>", "t..a", "", "t. a", ".t", "t.", "t.a\n", "?q", "t.é"})
+	bj := jstr(bad)
+	switch {
+	case strings.HasPrefix(pv.P.Subject, "get."):
+		op.P = g.sample("badget", []string{
+			`{"result":{"model":{"a":1,"r":{"rid":` + bj + `}}}}`,
+			`{"result":{"collection":[1,{"rid":` + bj + `}]}}`,
+			`{"result":{"model":{"r":{"rid":` + bj + `,"soft":true}}}}`,
+		})
+	case strings.HasPrefix(pv.P.Subject, "access."):
+		return
+	default:
+		op.P = `{"resource":{"rid":` + bj + `}}`
+	}
+	g.w.Exec(op)
 }
